@@ -357,6 +357,22 @@ RULESETS = {
     "pade": PADE,
     "padeb": PADE_B,
     "expm_tail": EXPM_TAIL,
+    "const_tm": [
+        Rule("tm.throw", r'SQ_THROW\(((?:[^()]|\((?:[^()]|\([^()]*\))*\))*)\)\s*;', 'SQ_THROW("");', min=1),
+        Rule("tm.lambda", r'auto\s+to_gsl\s*=\s*\[\s*\]\s*\([^)]*\)\s*->\s*gsl_complex\s*\{[^}]*\}\s*;', '', min=1),
+        Rule("tm.consts", r'const\s+auto\s+(unit|zero)\b', r'const gsl_complex \1', min=2),
+        Rule("tm.cp", r'auto\s+cp\s*=\s*sin\s*\(\s*theta\s*\)\s*\*\s*std::exp\s*\(\s*std::complex<double>\s*\(\s*0\s*,\s*([^()]+?)\s*\)\s*\)\s*;', r'cplx cp=c_scale(sin(theta),c_expi(\1));', min=1),
+        Rule("tm.cpc", r'auto\s+cpc\s*=\s*-\s*std::conj\s*\(\s*cp\s*\)\s*;', 'cplx cpc=c_neg(c_conj(cp));', min=1),
+        Rule("tm.real", r'\bto_gsl\s*\(\s*c\s*\)', 'to_gsl_r(c)', min=2),
+        Rule("tm.angle", r'(?<![\w.>])GetMixingAngle\s*\(', 'Const_GetMixingAngle(self,', min=1),
+        Rule("tm.phase", r'(?<![\w.>])GetPhase\s*\(', 'Const_GetPhase(self,', min=1),
+        Rule("tm.return", r'return\s+std::unique_ptr<[^;]*?>\s*\(\s*U\s*,\s*gsl_matrix_complex_free\s*\)\s*;', 'return U;', min=1),
+    ],
+    "const_store": [
+        # exception texts built with std::to_string / string concatenation: the message is not part of the contract
+        Rule("const.throw", r'SQ_THROW\(((?:[^()]|\((?:[^()]|\([^()]*\))*\))*)\)\s*;', 'SQ_THROW("");'),
+        Rule("const.get", r'\b(th|dcp|de)\.get\(\)', r'self->\1', min=1),
+    ],
     "squids_ini": [
         Rule("ini.system", r'\bsystem\.reset\s*\(\s*new\s+double\s*\[\s*(\w+)\s*\]\s*\)\s*;', r'system=op_new_system(\1);', min=1),
         Rule("ini.x", r'(?<![\w.>])x\.resize\s*\(\s*(\w+)\s*\)\s*;', r'op_x_resize(self,\1);', min=1),
